@@ -15,7 +15,7 @@ from .. import diff, evgen, refrt, schema as sch, shrink
 from ..core import REPO, Ctx
 from . import common
 
-RULE = ("exhaustive over the README's math-function list x forms {standalone, f(x)+1, 2*f(x), f(x)/2, g(f(x)), literal argument} x argument values drawn from event data inside the function's domain; "
+RULE = ("exhaustive over the README's math-function list x forms {standalone, f(x)+1, 2*f(x), f(x)/2, g(f(x)), literal argument; per-object rows and, for standalone / 2*f(x), the first object of the event at event level} x argument values drawn from event data inside the function's domain; "
         "distinct = distinct (backend, function, form); non-trivial = every cell")
 ASSUME = ["'the function of that name' = the C library symbol (libm via ctypes); ln = log; builtin abs/pow", "NaN == NaN for the comparison; relative tolerance 1e-9"]
 
@@ -99,13 +99,31 @@ def run(ctx: Ctx) -> int:
             c = diff.Case(backend, q, evs, diff.members_used(s, q), tag=cl)
             c.allow_nonfinite = True  # type: ignore
             return c
-        cases = [mk(table[i:i + 10]) for i in range(0, len(table), 10)]
+        # the same cells with the argument taken from the FIRST object of the event (event-level rows): the call's value
+        # is produced inside the first-element block and consumed outside of it
+        F = f"e.{coll}('A').First()"
+
+        def mk_ev(cl):
+            body = ", ".join(c["expr"].replace("j.", F + ".") for c in cl)
+            q = f"ds.Where(lambda e: e.{coll}('A').Count() > 0).Select(lambda e: ({body},))"
+            cl2 = [dict(c, id=c["id"] + "@first_of_event", expr=c["expr"].replace("j.", F + ".")) for c in cl]
+            c = diff.Case(backend, q, evs, diff.members_used(s, q), tag=cl2)
+            c.allow_nonfinite = True  # type: ignore
+            c._mk = mk_ev  # type: ignore
+            return c
+        ev_table = [c for c in allc if "j." in c["expr"] and c["id"].endswith((":standalone", ":times2") if backend == "atlas" else (":standalone",))]
+        if ctx.quick:
+            ev_table = [c for k, c in enumerate(ev_table) if (k + ctx.seed) % 2 == 0]
+        cases = [mk(table[i:i + 10]) for i in range(0, len(table), 10)] + [mk_ev(ev_table[i:i + 6]) for i in range(0, len(ev_table), 6)]
         results: List[Tuple[diff.Case, Dict[str, Any]]] = []
         diff.differential(ctx, eng, cases, lambda c, r: results.append((c, r)))
         retry = []
         for c, r in results:
             if not judge(ctx, backend, c, r, failures, isolate=len(c.tag) > 1):
-                retry += [mk([cell]) for cell in c.tag]
+                if hasattr(c, "_mk"):
+                    retry += [mk_ev([dict(cell, id=cell["id"].replace("@first_of_event", ""), expr=cell["expr"].replace(F + ".", "j."))]) for cell in c.tag]
+                else:
+                    retry += [mk([cell]) for cell in c.tag]
         if retry:
             ctx.count("cells_isolated", len(retry))
             results = []
